@@ -447,6 +447,14 @@ class C14(F.Check):
                "std::is_same<UnitPowerT<UnitPowerT<Seconds, 2, 3>, 3, 4>, UnitPowerT<Seconds, 1, 2>>::value && "
                "std::is_same<UnitPowerT<UnitPowerT<Feet, 1, 3>, 1, 3>, UnitPowerT<Feet, 1, 9>>::value;", True,
                "UnitPowerT of UnitPowerT multiplies rational exponents exactly (non-coprime denominators included)", {})
+        # 1/q and the unit-symbol spellings of it: the quotient keeps the rep of the quantity (float stays float) and has the inverse unit
+        for r_ in ("float", "double", "long double"):
+            rt_ = r_.replace(" ", "")
+            for nm, e in (("one_over_q", "((%s)1 / seconds((%s)3))" % (r_, r_)), ("sym_over_q", "(symbols::m / seconds((%s)3))" % r_),
+                          ("const_over_q", "(make_constant(meters) / seconds((%s)3))" % r_), ("sym_times_q", "(symbols::m * seconds((%s)3))" % r_),
+                          ("q_over_sym", "(seconds((%s)3) / symbols::m)" % r_)):
+                closed("rep_%s_%s" % (nm, rt_), "return std::is_same<typename std::decay_t<decltype(%s)>::Rep, %s>::value;" % (e, r_), True,
+                       "the rep of the result is the rep of the quantity operand", {"expression": e, "rep": r_})
         for nm, ut, conv in (("uno", "Unos", True), ("pi_uno", "decltype(Unos{} * Magnitude<Pi>{})", False),
                              ("sqrt10_uno", "decltype(root<2>(Unos{} * mag<10>()))", False), ("pct", "Percent", False),
                              ("inv_pi_uno", "decltype(Unos{} / Magnitude<Pi>{})", False), ("rad", "Radians", False)):
